@@ -150,6 +150,9 @@ class Engine:
         if prop == "C14" and tier == "thorough":
             nmax = 40
         n = T.draw(nmax + 1)
+        if not enum and T.draw(14) == 0:
+            # long stream: inbox backlogs beyond 128 messages become reachable
+            n = 130 + T.draw(271)
         extra = T.draw(bsz) if T.draw(3) == 0 else 0
         bd = C.block_dur_for(bsz, sr)
         w = bsz / sr
@@ -177,7 +180,8 @@ class Engine:
             o = {"kind": kind, "timeout": T.choice(TIMEOUTS)}
             if kind == "join":
                 o["fmt"] = T.choice(["wav", "raw"])
-                o["silence_samples"] = T.choice([0, 0.4, 1, 2.5, 7, 100])
+                o["silence_samples"] = T.choice([0, 0.4, 1, 1.5, 0.6, 2.75,
+                                                 3.5, 7, 100])
             if kind == "region":
                 o["tmpl"] = T.draw(4)
             obs.append(o)
@@ -289,8 +293,11 @@ class Engine:
                     w = W.AudioEventsJoinerWorker(sil, fn, None, sr, sw, ch,
                                                   timeout=o["timeout"])
                     w._v_sil = sil
+                    w._v_fn = fn
                 elif kind == "player":
-                    w = W.PlayerWorker(FakePlayer(), timeout=o["timeout"])
+                    fp = FakePlayer()
+                    w = W.PlayerWorker(fp, timeout=o["timeout"])
+                    w._v_player = fp
                 else:
                     w = W.CommandLineWorker("run {file}",
                                             timeout=o["timeout"])
@@ -345,6 +352,7 @@ class Engine:
                 saver = W.StreamSaverWorker(
                     reader, fn, cache_size_sec=sv["cache_blocks"] * bsz / sr,
                     timeout=sv["timeout"])
+                res["saver_fn"] = fn
                 # record what the tokenizer sees through the saver
                 seen = res["seen"] = []
                 orig_read = saver.read
@@ -406,7 +414,7 @@ class Engine:
     def _base_outcome(self, sim, want_trace):
         faults = {}
         for k in ("timeout_fired", "timer_fired_early", "stall", "starve",
-                  "preempt", "pct_change"):
+                  "preempt", "pct_change", "queue_full"):
             if sim.counters.get(k):
                 faults[k] = sim.counters[k]
         out = {"violation": None, "error": None, "steps": sim.steps,
@@ -428,7 +436,15 @@ class Engine:
             p["timeout_then_late_message"] = 1
         if c.get("marker_behind_backlog"):
             p["marker_behind_backlog"] = 1
-        if res.get("_midflush"):
+        mb = c.get("max_backlog", 0)
+        if mb >= 128:
+            p["inbox_backlog_ge_128"] = 1
+        elif mb >= 16:
+            p["inbox_backlog_ge_16"] = 1
+        nw = sum(1 for e in sim.log if e[2] == "wav.write"
+                 and isinstance(e[3], tuple) and str(e[3][0]).startswith(
+                     "stream."))
+        if nw >= 2:
             p["cache_flush_midstream"] = 1
         if res.get("_flush_at_stop"):
             p["stop_while_event_open"] = 1
@@ -525,9 +541,9 @@ class Engine:
                         return V(c_obs, "print observer %d lines %r != %r" % (
                             k, got, want), c_obs + ":print")
                 elif kind == "player":
-                    if o._player.played != [bytes(r.data) for r in E]:
+                    if o._v_player.played != [bytes(r.data) for r in E]:
                         return V(c_obs, "player observer %d played %d items, "
-                                 "expected %d" % (k, len(o._player.played),
+                                 "expected %d" % (k, len(o._v_player.played),
                                                   len(E)), c_obs + ":player")
                 elif kind == "cmd":
                     pass  # judged collectively below
@@ -605,7 +621,7 @@ class Engine:
 
     def _judge_saver(self, sc, res, served, saver, V, clause):
         sw, ch, sr, bsz = sc["fmt"]
-        fn = saver._output_filename
+        fn = res["saver_fn"]
         seen = b"".join(b for b in res["seen"] if b is not None)
         if seen != served:
             return V(clause, "tokenizer saw %d bytes through the saver but "
@@ -637,7 +653,7 @@ class Engine:
         for k, (o, od) in enumerate(zip(res["obs"], sc["observers"])):
             if od["kind"] == "join":
                 from auditok import make_silence
-                fn = o._output_filename
+                fn = o._v_fn
                 try:
                     if od["fmt"] == "wav":
                         d, hp = C.read_wav(fn)
